@@ -11,6 +11,13 @@ pub fn nil() -> Uuid {
     Uuid::nil()
 }
 
+/// an empty model with the given general data (built by assignment, so that fields added to `Model` do not matter)
+pub fn model_with_meta(meta: Meta) -> Model {
+    let mut m = Model::default();
+    m.meta = meta;
+    m
+}
+
 pub fn rect(w: f32, h: f32) -> Polygon {
     vec![point![0.0, 0.0], point![w, 0.0], point![w, h], point![0.0, h]]
 }
@@ -20,7 +27,7 @@ pub fn geom(tilt: f32, azimuth: f32, pos: Option<[f32; 3]>, polygon: Polygon) ->
         tilt,
         azimuth,
         position: pos.map(|p| point![p[0], p[1], p[2]]),
-        polygon,
+        polygon, ..Default::default()
     }
 }
 
@@ -36,7 +43,7 @@ pub fn space(name: &str, kind: SpaceType, inside: bool, height: f32) -> Space {
         loads: None,
         thermostat: None,
         n_v: None,
-        illuminance: None,
+        illuminance: None, ..Default::default()
     }
 }
 
@@ -48,7 +55,7 @@ pub fn wall(name: &str, bounds: BoundaryType, cons: Uuid, space: Uuid, next_to: 
         cons,
         space,
         next_to,
-        geometry: g,
+        geometry: g, ..Default::default()
     }
 }
 
@@ -63,7 +70,7 @@ pub fn window(name: &str, cons: Uuid, wall: Uuid, pos: Option<[f32; 2]>, w: f32,
             height: h,
             width: w,
             setback,
-        },
+        }, ..Default::default()
     }
 }
 
@@ -76,7 +83,7 @@ pub fn mat_detailed(name: &str, conductivity: f32) -> Material {
             density: 1000.0,
             specific_heat: 1000.0,
             vapour_diff: None,
-        },
+        }, ..Default::default()
     }
 }
 
@@ -87,7 +94,7 @@ pub fn mat_resistance(name: &str, resistance: f32) -> Material {
         properties: MatProps::Resistance {
             resistance,
             vapour_diff: None,
-        },
+        }, ..Default::default()
     }
 }
 
@@ -96,7 +103,7 @@ pub fn wallcons(name: &str, layers: &[(Uuid, f32)]) -> WallCons {
         id: uid(name),
         name: name.to_string(),
         layers: layers.iter().map(|(m, e)| Layer { material: *m, e: *e }).collect(),
-        absorptance: 0.6,
+        absorptance: 0.6, ..Default::default()
     }
 }
 
@@ -105,7 +112,7 @@ pub fn glass(name: &str, u: f32, g: f32) -> Glass {
         id: uid(name),
         name: name.to_string(),
         u_value: u,
-        g_gln: g,
+        g_gln: g, ..Default::default()
     }
 }
 
@@ -114,7 +121,7 @@ pub fn frame(name: &str, u: f32) -> Frame {
         id: uid(name),
         name: name.to_string(),
         u_value: u,
-        absorptivity: 0.6,
+        absorptivity: 0.6, ..Default::default()
     }
 }
 
@@ -127,7 +134,7 @@ pub fn wincons(name: &str, glass: Uuid, frame: Uuid, f_f: f32, delta_u: f32, g_g
         f_f,
         delta_u,
         g_glshwi,
-        c_100,
+        c_100, ..Default::default()
     }
 }
 
@@ -141,7 +148,7 @@ pub fn meta(zone: climatedata::ClimateZone) -> Meta {
         global_ventilation_l_s: None,
         n50_test_ach: None,
         d_perim_insulation: 0.0,
-        rn_perim_insulation: 0.0,
+        rn_perim_insulation: 0.0, ..Default::default()
     }
 }
 
@@ -181,10 +188,7 @@ pub fn box_walls(prefix: &str, space: Uuid, cons: Uuid, x0: f32, y0: f32, z0: f3
 
 /// One conditioned box 10x8x3 with a 2x1.5 window on the south wall, everything resolvable
 pub fn simple_box(zone: climatedata::ClimateZone) -> Model {
-    let mut m = Model {
-        meta: meta(zone),
-        ..Default::default()
-    };
+    let mut m = model_with_meta(meta(zone));
     let wc = std_cons(&mut m);
     let winc = std_wincons(&mut m);
     let s = space("S1", SpaceType::CONDITIONED, true, 3.0);
